@@ -151,4 +151,5 @@ static void run_case( const std::vector<Toks>& ops, FILE* out )
     }
 }
 
-int main() { return run_all( std::cin, run_case ); }
+// every case takes milliseconds; a child that needs seconds is a hang of the code under test
+int main() { return run_all( std::cin, run_case, 2 ); }
